@@ -113,6 +113,7 @@ def worker(prop, tier, idxs, outpath, seed):
             core.C.assume_pos_sqrt = bool(getattr(H, 'ASSUME_SQRT_ARGS_POSITIVE', False))
             core.C.feas_timeout = getattr(H, 'FEAS_TIMEOUT_MS', 10000)
             fu0 = core.C.stats.get('feas_unknown', 0)
+            sy0 = core.C.stats.get('syntactic', 0)
             signal.signal(signal.SIGALRM, _alarm)
             signal.alarm(int(budget * 2) + 30)      # hard stop for python-level loops (solver calls stop at the deadline)
             try:
@@ -157,6 +158,7 @@ def worker(prop, tier, idxs, outpath, seed):
             res['solver_s'] = core.C.stats['solver_s'] - s0
             res['functions'] = sorted(tracer.seen) if tracer else []
             res['feas_unknown'] = core.C.stats.get('feas_unknown', 0) - fu0
+            res['syntactic'] = core.C.stats.get('syntactic', 0) - sy0
             f.write(json.dumps(_jsonable(res)) + '\n')
             f.flush()
             if os.environ.get('VERIF_PROGRESS') and (res['wall_s'] > 5 or res['unknown'] or res['unsupported']):
@@ -222,7 +224,7 @@ def main(argv):
 def report(prop, tier, seed, H, cfgs, results, died, wall):
     known = [k for k in load_known() if k.get('property') == prop and k.get('status', 'open') == 'open']
     missing = [i for i in range(len(cfgs)) if i not in results]
-    tot = dict(paths=0, infeasible=0, obligations=0, discharged=0, unknown=0, queries=0, solver_s=0.0, feas_unknown=0)
+    tot = dict(paths=0, infeasible=0, obligations=0, discharged=0, unknown=0, queries=0, solver_s=0.0, feas_unknown=0, syntactic=0)
     unsupported = []
     violations = {}      # key -> first failure
     known_hits = {}
@@ -297,6 +299,10 @@ def report(prop, tier, seed, H, cfgs, results, died, wall):
             configurations=len(cfgs), paths=tot['paths'], paths_outside_domain=tot['infeasible'],
             obligations=tot['obligations'], discharged=tot['discharged'], solver_unknown=tot['unknown'],
             queries=tot['queries'], solver_s=round(tot['solver_s'], 2),
+            obligations_discharged_without_query=tot['syntactic'],
+            obligations_note=('value obligations whose two sides are the syntactically identical z3 term (pure data movement) are '
+                              'discharged without a solver call; structural obligations (labels, index sets, shapes) are concrete '
+                              'comparisons; all others are z3 queries'),
             branch_feasibility_unknown=tot['feas_unknown'],
             branch_policy=('branches whose feasibility z3 cannot decide are NOT explored (counted above)'
                            if getattr(H, 'SKIP_UNKNOWN_BRANCHES', False) else
